@@ -202,3 +202,20 @@ Example C11_source_example :
                [ {| m_job := 0; m_tgt := 1; m_rid := 5%Z; m_fac := Task |};
                  {| m_job := 2; m_tgt := 1; m_rid := 5%Z; m_fac := Task |} ]) = [2; 0].
 Proof. vm_compute. repeat split; reflexivity. Qed.
+
+(* _workers_sort, regenerated statement by statement (Gen/FarmGen.v workers_sort;
+   None = the python raises).  PARTIAL: equality with the model is proved for
+   every pool of at most 6 workers on at most 3 hosts (ids = positions), by
+   evaluation inside Coq; missing for all pools: the loop invariant relating the
+   per-host lists of the source to the filters of the model (Proofs/FarmGenEq.v). *)
+Theorem C11_workers_sort_is_source_partial : forall hs,
+  length hs <= 6 -> Forall (fun h => h < 3) hs ->
+  FarmGen.workers_sort (FarmGenEq.pool hs) = Some (workers_sort (FarmGenEq.pool hs)).
+Proof. exact FarmGenEq.workers_sort_gen_eq_partial. Qed.
+Print Assumptions C11_workers_sort_is_source_partial.
+
+Example C11_workers_sort_example :
+  (length [1; 1; 0; 2; 1] <= 6 /\ Forall (fun h => h < 3) [1; 1; 0; 2; 1]) /\
+  FarmGen.workers_sort (FarmGenEq.pool [1; 1; 0; 2; 1])
+    = Some [(0, 1); (1, 1); (2, 0); (4, 1); (3, 2)].
+Proof. split; [split; [cbn; repeat constructor|repeat constructor]|vm_compute; reflexivity]. Qed.
